@@ -10,9 +10,9 @@ namespace W2c2Verif.Sim
 open W2c2Verif Model Gen Spec
 
 /-- `b` refines `a`: whenever `a` is a value or a trap, `b` is the same -/
-def Refines (a b : Out (Option Val)) : Prop := (∀ r, a = .val r → b = .val r) ∧ (∀ t, a = .trap t → b = .trap t)
+def Refines (a b : Out (Option Val × GS)) : Prop := (∀ r, a = .val r → b = .val r) ∧ (∀ t, a = .trap t → b = .trap t)
 
-theorem Refines.rfl' (a : Out (Option Val)) : Refines a a := ⟨fun _ h => h, fun _ h => h⟩
+theorem Refines.rfl' (a : Out (Option Val × GS)) : Refines a a := ⟨fun _ h => h, fun _ h => h⟩
 
 theorem compileFuncs_get (m : MModule) : ∀ (fds : List MFunc) (cfs : List Model.CFunc), m.compileFuncs fds = .ok cfs →
     ∀ (k : Nat) (fd : MFunc), fds[k]? = some fd → ∃ cf, cfs[k]? = some cf ∧ m.compileOne fd = .ok cf
@@ -48,38 +48,41 @@ theorem compileFunc_shape {ctx : Ctx} {params locals : List VT} {result : Option
         simp only [] at h
         split at h <;> (injection h with h; subst h; exact ⟨rfl, rfl⟩)
 
-theorem runFuncTgt_typed {ns : NumSem} {fuel : Nat} {cf : Model.CFunc} {args : List Val} {v : Val} {rt : VT}
-    (h : runFuncTgt ns fuel cf args = .value (some v)) (hr : cf.result = some rt) : vtOf v = rt := by
+theorem runFuncTgt_typed {ns : NumSem} {fuel : Nat} {cf : Model.CFunc} {args : List Val} {g g' : GS} {v : Val} {rt : VT}
+    (h : runFuncTgt ns fuel cf args g = .value (some v) g') (hr : cf.result = some rt) : vtOf v = rt := by
   unfold runFuncTgt at h
-  generalize execSeq ns fuel cf.body (initMSt cf.localTypes args) = r at h
+  generalize execSeq ns fuel cf.body (initMSt cf.localTypes args g) = r at h
   cases r with
   | normal σ =>
     simp only [tgtFinish, hr] at h
     split at h
-    · injection h with h; injection h with h; subst h; exact vtOf_get _ _
+    · injection h with h _; injection h with h; subst h; exact vtOf_get _ _
     · cases h
   | jump L σ =>
     cases L with
     | zero =>
       simp only [tgtFinish, hr] at h
       split at h
-      · injection h with h; injection h with h; subst h; exact vtOf_get _ _
+      · injection h with h _; injection h with h; subst h; exact vtOf_get _ _
       · cases h
     | succ L => simp [tgtFinish] at h
   | trap t => simp [tgtFinish] at h
   | oof => simp [tgtFinish] at h
   | stuck => simp [tgtFinish] at h
 
-theorem numOK_env {ns0 : NumSem} (h : NumOK ns0) (m : MModule) (cS cT : Nat → List Val → Out (Option Val)) : NumOK (m.env ns0 cS cT) :=
+theorem numOK_env {ns0 : NumSem} (h : NumOK ns0) (m : MModule) (cS cT : Nat → List Val → GS → Out (Option Val × GS)) : NumOK (m.env ns0 cS cT) :=
   ⟨h.arity, h.typed⟩
 
-theorem toOut_val {r : FRes} {x : Option Val} (h : r.toOut = .val x) : r = .value x := by
+theorem memOK_env {ns0 : NumSem} (h : MemOK ns0) (m : MModule) (cS cT : Nat → List Val → GS → Out (Option Val × GS)) : MemOK (m.env ns0 cS cT) :=
+  ⟨h.loadRef, h.loadTrap, h.storeRef, h.storeTrap, h.growTyped⟩
+
+theorem toOut_val {r : FRes} {x : Option Val × GS} (h : r.toOut = .val x) : r = .value x.1 x.2 := by
   cases r <;> simp [FRes.toOut] at h; subst h; rfl
 theorem toOut_trap {r : FRes} {t : Trap} (h : r.toOut = .trap t) : r = .trap t := by
   cases r <;> simp [FRes.toOut] at h; subst h; rfl
 
-theorem indirect_refines (m : MModule) (cS cT : Nat → List Val → Out (Option Val)) (href : ∀ fn args, Refines (cS fn args) (cT fn args))
-    (ty i : Nat) (args : List Val) : Refines (m.indirect cS ty i args) (m.indirect cT ty i args) := by
+theorem indirect_refines (m : MModule) (cS cT : Nat → List Val → GS → Out (Option Val × GS)) (href : ∀ fn args g, Refines (cS fn args g) (cT fn args g))
+    (ty i : Nat) (args : List Val) (g : GS) : Refines (m.indirect cS ty i args g) (m.indirect cT ty i args g) := by
   unfold MModule.indirect
   cases m.table[i]? with
   | none => exact Refines.rfl' _
@@ -89,36 +92,56 @@ theorem indirect_refines (m : MModule) (cS cT : Nat → List Val → Out (Option
     | some fn =>
       simp only []
       split
-      · exact href fn args
+      · exact href fn args g
+      · exact Refines.rfl' _
+
+/-- `b` refines `a` on well-typed global states -/
+def RefinesOn (m : MModule) (cS cT : Nat → List Val → GS → Out (Option Val × GS)) : Prop :=
+  ∀ fn args g, GTyped m.ctx g → Refines (cS fn args g) (cT fn args g)
+
+theorem indirect_refines_on (m : MModule) (cS cT : Nat → List Val → GS → Out (Option Val × GS)) (href : RefinesOn m cS cT)
+    (ty i : Nat) (args : List Val) (g : GS) (hg : GTyped m.ctx g) : Refines (m.indirect cS ty i args g) (m.indirect cT ty i args g) := by
+  unfold MModule.indirect
+  cases m.table[i]? with
+  | none => exact Refines.rfl' _
+  | some e =>
+    cases e with
+    | none => exact Refines.rfl' _
+    | some fn =>
+      simp only []
+      split
+      · exact href fn args g hg
       · exact Refines.rfl' _
 
 /-- the inductive statement: at every call-depth bound the callee environment satisfies `CallOK` -/
-theorem module_callOK (m : MModule) (ns0 : NumSem) (hns : NumOK ns0) (cfs : List Model.CFunc)
+theorem module_callOK (m : MModule) (ns0 : NumSem) (hns : NumOK ns0) (hmo : MemOK ns0) (cfs : List Model.CFunc)
     (hc : m.compileFuncs m.funcs = .ok cfs) (hh : HostOK m) :
     ∀ n (lt : List VT), CallOK (m.env ns0 (m.run ns0 cfs n).1 (m.run ns0 cfs n).2) { m.ctx with localTypes := lt } := by
   intro n
   -- the part of CallOK that follows from facts about direct calls
-  have build : ∀ (cS cT : Nat → List Val → Out (Option Val)),
-      (∀ fn k t args v, m.callArity fn = some (k, some t) → cS fn args = .val (some v) → vtOf v = t) →
-      (∀ fn args, Refines (cS fn args) (cT fn args)) →
+  have build : ∀ (cS cT : Nat → List Val → GS → Out (Option Val × GS)),
+      (∀ fn k t args g v g', GTyped m.ctx g → m.callArity fn = some (k, some t) → cS fn args g = .val (some v, g') → vtOf v = t) →
+      (∀ fn args g r, GTyped m.ctx g → cS fn args g = .val r → GTyped m.ctx r.2) →
+      RefinesOn m cS cT →
       ∀ lt, CallOK (m.env ns0 cS cT) { m.ctx with localTypes := lt } := by
-    intro cS cT htyped href lt
-    refine ⟨?_, ?_, ?_, ?_, ?_, ?_, ?_, ?_⟩
+    intro cS cT htyped hpres href lt
+    refine ⟨?_, ?_, ?_, ?_, ?_, ?_, ?_, ?_, ?_, ?_⟩
     · intro fn ti ft h1 h2 h3
       show m.callArity fn = _
       have h1' : m.ctx.funcTypeIdx[fn]? = some ti := h1
       have h2' : m.types[ti]? = some ft := h2
       simp [MModule.callArity, MModule.funcType, h1', h2', arityOfType, h3]
-    · intro fn k t args v h1 h2; exact htyped fn k t args v h1 h2
-    · intro fn args r h; exact (href fn args).1 r h
-    · intro fn args t h; exact (href fn args).2 t h
+    · intro fn k t args g v g' hg h1 h2; exact htyped fn k t args g v g' hg h1 h2
+    · intro fn args g r hg h; exact hpres fn args g r hg h
+    · intro fn args g r hg h; exact (href fn args g hg).1 r h
+    · intro fn args g t hg h; exact (href fn args g hg).2 t h
     · intro ty ft h1 h2
       show m.indArity ty = _
       have h1' : m.types[ty]? = some ft := h1
       simp [MModule.indArity, h1', arityOfType, h2]
-    · intro ty k t i args v h1 h2
+    · intro ty k t i args g v g' hg h1 h2
       have h1' : m.indArity ty = some (k, some t) := h1
-      have h2' : m.indirect cS ty i args = .val (some v) := h2
+      have h2' : m.indirect cS ty i args g = .val (some v, g') := h2
       unfold MModule.indirect at h2'
       split at h2'
       · rename_i fn hfn
@@ -126,107 +149,117 @@ theorem module_callOK (m : MModule) (ns0 : NumSem) (hns : NumOK ns0) (cfs : List
         · rename_i hty
           have : m.callArity fn = some (k, some t) := by
             simp only [MModule.callArity, hty]; exact h1'
-          exact htyped fn k t args v this h2'
+          exact htyped fn k t args g v g' hg this h2'
         · cases h2'
       · cases h2'
-    · intro ty i args r h; exact (indirect_refines m cS cT href ty i args).1 r h
-    · intro ty i args t h; exact (indirect_refines m cS cT href ty i args).2 t h
+    · intro ty i args g r hg h
+      have h' : m.indirect cS ty i args g = .val r := h
+      unfold MModule.indirect at h'
+      split at h'
+      · rename_i fn hfn
+        split at h'
+        · exact hpres fn args g r hg h'
+        · cases h'
+      · cases h'
+    · intro ty i args g r hg h; exact (indirect_refines_on m cS cT href ty i args g hg).1 r h
+    · intro ty i args g t hg h; exact (indirect_refines_on m cS cT href ty i args g hg).2 t h
   induction n with
   | zero =>
     intro lt
-    refine build _ _ ?_ ?_ lt
-    · intro fn k t args v _ h; simp [MModule.run] at h
-    · intro fn args; exact Refines.rfl' _
+    refine build _ _ ?_ ?_ ?_ lt
+    · intro fn k t args g v g' _ _ h; simp [MModule.run] at h
+    · intro fn args g r _ h; simp [MModule.run] at h
+    · intro fn args g _; exact Refines.rfl' _
   | succ n ih =>
     intro lt
     -- one function, one level up
-    have key : ∀ fn args, fn ≥ m.imports.length → ∀ fd, m.funcs[fn - m.imports.length]? = some fd → ∀ ft, m.types[fd.type]? = some ft →
+    have key : ∀ fn args g, GTyped m.ctx g → ∀ fd, m.funcs[fn - m.imports.length]? = some fd → ∀ ft, m.types[fd.type]? = some ft →
         args.map vtOf = ft.params.map vtOfW →
         ∃ cf, cfs[fn - m.imports.length]? = some cf ∧ cf.paramTypes = ft.params.map vtOfW ∧ cf.result = ft.results.head?.map vtOfW ∧
-          (match runFuncSrc (m.env ns0 (m.run ns0 cfs n).1 (m.run ns0 cfs n).2) (n + 1) fd.locals (ft.results.head?.map vtOfW) fd.body args with
-           | .value v => runFuncTgt (m.env ns0 (m.run ns0 cfs n).1 (m.run ns0 cfs n).2) (n + 1) cf args = .value v
-           | .trap t => runFuncTgt (m.env ns0 (m.run ns0 cfs n).1 (m.run ns0 cfs n).2) (n + 1) cf args = .trap t
+          (match runFuncSrc (m.env ns0 (m.run ns0 cfs n).1 (m.run ns0 cfs n).2) (n + 1) fd.locals (ft.results.head?.map vtOfW) fd.body args g with
+           | .value v g' => runFuncTgt (m.env ns0 (m.run ns0 cfs n).1 (m.run ns0 cfs n).2) (n + 1) cf args g = .value v g' ∧ GTyped m.ctx g'
+           | .trap t => runFuncTgt (m.env ns0 (m.run ns0 cfs n).1 (m.run ns0 cfs n).2) (n + 1) cf args g = .trap t
            | _ => True) := by
-      intro fn args hfn fd hfd ft hft hargs
+      intro fn args g hg fd hfd ft hft hargs
       obtain ⟨cf, e1, e2⟩ := compileFuncs_get m m.funcs cfs hc _ fd hfd
       simp only [MModule.compileOne, hft] at e2
       split at e2
       · obtain ⟨s1, s2⟩ := compileFunc_shape e2
         refine ⟨cf, e1, s1, s2, ?_⟩
-        exact func_sim _ (numOK_env hns m _ _) m.ctx (ft.params.map vtOfW) fd.locals (ft.results.head?.map vtOfW) fd.body cf args (n + 1)
-          (ih _) e2 hargs
+        exact func_sim _ (numOK_env hns m _ _) (memOK_env hmo m _ _) m.ctx (ft.params.map vtOfW) fd.locals (ft.results.head?.map vtOfW) fd.body cf args g (n + 1)
+          (ih _) e2 hargs hg
       · cases e2
-    refine build _ _ ?_ ?_ lt
-    · -- results are typed
-      intro fn k t args v har h
-      simp only [MModule.run] at h
+    -- a defined function's finished source run, unfolded
+    have unfoldS : ∀ fn args g (o : Out (Option Val × GS)), (m.run ns0 cfs (n + 1)).1 fn args g = o → ¬ fn < m.imports.length → (∀ k, o ≠ .ub k) → o ≠ .oof →
+        ∃ fd ft, m.funcs[fn - m.imports.length]? = some fd ∧ m.types[fd.type]? = some ft ∧ args.map vtOf = ft.params.map vtOfW ∧
+          (runFuncSrc (m.env ns0 (m.run ns0 cfs n).1 (m.run ns0 cfs n).2) (n + 1) fd.locals (ft.results.head?.map vtOfW) fd.body args g).toOut = o := by
+      intro fn args g o h himp hub hoof
+      simp only [MModule.run, himp, if_false] at h
       split at h
-      · rename_i himp; exact hh fn k t args v himp har h
-      · rename_i himp
+      · exact absurd h.symm (hub _)
+      · rename_i fd hfd
         split at h
-        · cases h
-        · rename_i fd hfd
+        · exact absurd h.symm (hub _)
+        · rename_i ft hft
           split at h
-          · cases h
-          · rename_i ft hft
-            split at h
-            · rename_i hargs
-              obtain ⟨cf, e1, e2, e3, e4⟩ := key fn args (by omega) fd hfd ft hft hargs
-              have hsrc := toOut_val h
-              rw [hsrc] at e4
-              -- the callee's declared result type
-              have hfty : m.funcType fn = some ft := by
-                have hidx : m.ctx.funcTypeIdx[fn]? = some fd.type := by
-                  show (m.imports ++ m.funcs.map (·.type))[fn]? = _
-                  rw [List.getElem?_append_right (by omega), List.getElem?_map, hfd]; rfl
-                simp [MModule.funcType, hidx, hft]
-              simp only [MModule.callArity, hfty, Option.bind_some, arityOfType] at har
-              split at har
-              · injection har with har
-                simp only [Prod.mk.injEq] at har
-                exact runFuncTgt_typed e4 (e3.trans har.2)
-              · cases har
-            · cases h
+          · rename_i hargs; exact ⟨fd, ft, hfd, hft, hargs, h⟩
+          · exact absurd h.symm (hub _)
+    have tgtEq : ∀ fn args g cf, ¬ fn < m.imports.length → cfs[fn - m.imports.length]? = some cf → args.map vtOf = cf.paramTypes →
+        (m.run ns0 cfs (n + 1)).2 fn args g = (runFuncTgt (m.env ns0 (m.run ns0 cfs n).1 (m.run ns0 cfs n).2) (n + 1) cf args g).toOut := by
+      intro fn args g cf himp hcf hargs
+      simp only [MModule.run, himp, if_false, hcf, hargs, if_true]
+    refine build _ _ ?_ ?_ ?_ lt
+    · -- results are typed
+      intro fn k t args g v g' hg har h
+      by_cases himp : fn < m.imports.length
+      · simp only [MModule.run, himp, if_true] at h
+        exact hh.1 fn k t args g v g' himp har h
+      · obtain ⟨fd, ft, hfd, hft, hargs, hsrc⟩ := unfoldS fn args g _ h himp (by intro k hk; cases hk) (by intro hk; cases hk)
+        obtain ⟨cf, e1, e2, e3, e4⟩ := key fn args g hg fd hfd ft hft hargs
+        rw [toOut_val hsrc] at e4
+        have hfty : m.funcType fn = some ft := by
+          have hidx : m.ctx.funcTypeIdx[fn]? = some fd.type := by
+            show (m.imports ++ m.funcs.map (·.type))[fn]? = _
+            rw [List.getElem?_append_right (by omega), List.getElem?_map, hfd]; rfl
+          simp [MModule.funcType, hidx, hft]
+        simp only [MModule.callArity, hfty, Option.bind_some, arityOfType] at har
+        split at har
+        · injection har with har
+          simp only [Prod.mk.injEq] at har
+          exact runFuncTgt_typed e4.1 (e3.trans har.2)
+        · cases har
+    · -- globals stay typed
+      intro fn args g r hg h
+      by_cases himp : fn < m.imports.length
+      · simp only [MModule.run, himp, if_true] at h
+        exact hh.2 fn args g r himp hg h
+      · obtain ⟨fd, ft, hfd, hft, hargs, hsrc⟩ := unfoldS fn args g _ h himp (by intro k hk; cases hk) (by intro hk; cases hk)
+        obtain ⟨cf, e1, e2, e3, e4⟩ := key fn args g hg fd hfd ft hft hargs
+        rw [toOut_val hsrc] at e4
+        exact e4.2
     · -- the emitted-C side refines the specification side
-      intro fn args
-      simp only [MModule.run]
-      split
-      · exact Refines.rfl' _
-      · rename_i himp
-        constructor
+      intro fn args g hg
+      by_cases himp : fn < m.imports.length
+      · simp only [MModule.run, himp, if_true]; exact Refines.rfl' _
+      · constructor
         · intro r h
-          split at h
-          · cases h
-          · rename_i fd hfd
-            split at h
-            · cases h
-            · rename_i ft hft
-              split at h
-              · rename_i hargs
-                obtain ⟨cf, e1, e2, e3, e4⟩ := key fn args (by omega) fd hfd ft hft hargs
-                rw [toOut_val h] at e4
-                simp only [e1, e2, hargs, if_true, e4, FRes.toOut]
-              · cases h
+          obtain ⟨fd, ft, hfd, hft, hargs, hsrc⟩ := unfoldS fn args g _ h himp (by intro k hk; cases hk) (by intro hk; cases hk)
+          obtain ⟨cf, e1, e2, e3, e4⟩ := key fn args g hg fd hfd ft hft hargs
+          rw [toOut_val hsrc] at e4
+          rw [tgtEq fn args g cf himp e1 (by rw [e2]; exact hargs), e4.1]; rfl
         · intro t h
-          split at h
-          · cases h
-          · rename_i fd hfd
-            split at h
-            · cases h
-            · rename_i ft hft
-              split at h
-              · rename_i hargs
-                obtain ⟨cf, e1, e2, e3, e4⟩ := key fn args (by omega) fd hfd ft hft hargs
-                rw [toOut_trap h] at e4
-                simp only [e1, e2, hargs, if_true, e4, FRes.toOut]
-              · cases h
+          obtain ⟨fd, ft, hfd, hft, hargs, hsrc⟩ := unfoldS fn args g _ h himp (by intro k hk; cases hk) (by intro hk; cases hk)
+          obtain ⟨cf, e1, e2, e3, e4⟩ := key fn args g hg fd hfd ft hft hargs
+          rw [toOut_trap hsrc] at e4
+          rw [tgtEq fn args g cf himp e1 (by rw [e2]; exact hargs), e4]; rfl
 
-/-- C04, module level: for every call-depth bound, every function index (imported or defined) and all
-    arguments, if the specification's invocation returns a result or traps, the emitted C does the same -/
-theorem module_sim (m : MModule) (ns0 : NumSem) (hns : NumOK ns0) (cfs : List Model.CFunc)
-    (hc : m.compileFuncs m.funcs = .ok cfs) (hh : HostOK m) (n fn : Nat) (args : List Val) :
-    Refines ((m.run ns0 cfs n).1 fn args) ((m.run ns0 cfs n).2 fn args) := by
-  have h := module_callOK m ns0 hns cfs hc hh n []
-  exact ⟨fun r hr => h.refVal fn args r hr, fun t ht => h.refTrap fn args t ht⟩
+/-- C04, module level: for every call-depth bound, every function index (imported or defined), all arguments and
+    every well-typed state of the instance's globals and memory, if the specification's invocation returns a result
+    (leaving globals/memory `g'`) or traps, the emitted C does the same (same result, same `g'`) -/
+theorem module_sim (m : MModule) (ns0 : NumSem) (hns : NumOK ns0) (hmo : MemOK ns0) (cfs : List Model.CFunc)
+    (hc : m.compileFuncs m.funcs = .ok cfs) (hh : HostOK m) (n fn : Nat) (args : List Val) (g : GS) (hg : GTyped m.ctx g) :
+    Refines ((m.run ns0 cfs n).1 fn args g) ((m.run ns0 cfs n).2 fn args g) := by
+  have h := module_callOK m ns0 hns hmo cfs hc hh n []
+  exact ⟨fun r hr => h.refVal fn args g r hg hr, fun t ht => h.refTrap fn args g t hg ht⟩
 
 end W2c2Verif.Sim
